@@ -173,7 +173,11 @@ MaxAt == 45
 Never == 1000
 MutPoints == IF MaxMut = 0 THEN {Never} ELSE 1..MaxAt
 CrashPoints == IF Faults THEN (1..MaxAt) \cup {Never} ELSE {Never}
-GenInit == Init /\ hist = <<>> /\ plan \in [mut : MutPoints, crash : CrashPoints]
+\* exhaustive exports: one environment action per behaviour where both kinds are switched on
+PlanChoices == IF MaxMut > 0 /\ Faults
+               THEN [mut : MutPoints, crash : {Never}] \cup [mut : {Never}, crash : 1..MaxAt]
+               ELSE [mut : MutPoints, crash : CrashPoints]
+GenInit == Init /\ hist = <<>> /\ plan \in PlanChoices
 \* one random plan per configuration (for big domains under -simulate)
 GenInitRandom == Init /\ hist = <<>>
                  /\ plan = [mut |-> RandomElement(MutPoints), crash |-> RandomElement(CrashPoints)]
